@@ -184,7 +184,7 @@ def _run_field(case, ctx):
                     from vf.props import c01 as _c01  # pylint: disable=import-outside-toplevel
 
                     bnd = _c01.accuracy_band(cls, body, loc)
-                    row_allow = (1e-10 + np.where(bnd > 1e-5, 3.0 * bnd, 0.0))[:, None] * sc
+                    row_allow = (1e-9 + np.where(bnd > 1e-5, 3.0 * bnd, 0.0))[:, None] * sc  # (1e-9: as every other relation check)
                     with np.errstate(invalid="ignore"):
                         if np.any(np.abs(v - F[X]) > row_allow):
                             worst = int(np.nanargmax(np.max(np.abs(v - F[X]), axis=1)))
